@@ -539,6 +539,29 @@ pub fn run(e: &'static Engine) {
         }));
     }
     e.par(jobs);
+    // the same for small and medium symbols (cheap renders, many more cases): machine-word edge patterns, runs and lines
+    let total: u32 = e.tier.pick(1920, 9600);
+    let mut jobs: Vec<Job> = Vec::new();
+    for _ in 0..shards {
+        jobs.push(Box::new(move |jc: &mut JobCtx| {
+            let strat = (crate::gens::steered_case(4, 16, true), prop_oneof![Just(None), Just(Some(0usize))], any::<bool>()).prop_map(|((build, _), shape, twice)| {
+                let v = build.opts.version.unwrap_or(10);
+                let s = (size(v) + 8) as u32;
+                Case {
+                    build,
+                    cfg: SvgCfg { layers: shape.map(|s| vec![(s, None)]).unwrap_or_default(), ..SvgCfg::default() },
+                    fit: if twice { Fit::Width(2 * s) } else { Fit::Original },
+                    fit_order: 0,
+                    pre_fits: Vec::new(),
+                }
+            });
+            jc.run_prop(5 << 20, &strat, (total / shards).max(1), to_json, |c, o| {
+                o.label("part:steered_medium");
+                check(c, o)
+            });
+        }));
+    }
+    e.par(jobs);
     // wide margins: module coordinates on 10^k / 2^k boundaries (10, 100, 128, 256, 512, 1000, 1024), small symbols,
     // every shape, original scale (square shape: every pixel compared)
     let total: u32 = e.tier.pick(48, 960);
